@@ -644,6 +644,19 @@ Qed.
 
 
 
+Lemma dfs_nil ok segs : dfs ok [] segs = None.
+Proof.
+  induction segs as [|s r IH]; [reflexivity|]. cbn [dfs filter_map]. rewrite IH.
+  destruct (is_empty s); destruct (is_empty (join_with "/" (s :: r))); reflexivity.
+Qed.
+
+Lemma dfs_fast_eq ok segs : forall cs, dfs_fast ok cs segs = dfs ok cs segs.
+Proof.
+  induction segs as [|s r IH]; intros [|c cs]; try reflexivity.
+  - symmetry. apply dfs_nil.
+  - cbn [dfs_fast dfs]. rewrite !IH. reflexivity.
+Qed.
+
 Section Lookup.
 
 Variable rules : list rule.
@@ -1017,7 +1030,7 @@ Proof.
     pose proof (path_segs_reenc p p' R) as S.
     destruct (path_segs p) as [segs|] eqn:Sp; destruct (path_segs p') as [segs'|] eqn:Sp'; inversion S as [|? ? S2]; subst;
       [|constructor].
-    rewrite (dfs_prune _ segs), (dfs_prune _ segs').
+    rewrite !dfs_fast_eq. rewrite (dfs_prune _ segs), (dfs_prune _ segs').
     apply dfs_rel.
     - intros c c' Hc. eapply cand_ok_agree; eassumption.
     - apply Forall2_with; [assumption| |].
@@ -1234,7 +1247,7 @@ Qed.
 
 Lemma find_rule_in fx rules u c : find_rule fx rules u = Some c -> In (cd_rule c) rules.
 Proof.
-  unfold find_rule. destruct (path_segs (lookup_path u)); [|discriminate]. intro H.
+  unfold find_rule. destruct (path_segs (lookup_path u)); [|discriminate]. rewrite dfs_fast_eq. intro H.
   apply (dfs_rule_inv _ (fun r _ => In r rules) _ _ _ (cands_of_Forall _ rules (fun r t Hr _ => Hr)) H).
 Qed.
 
@@ -1454,7 +1467,7 @@ Lemma find_rule_pieces (f5 : bool) fx rules ci u c p : u_rawpath u = p -> is_emp
                     piece_of p (snd kv)) (cd_caps c).
 Proof.
   intros Er Ne W L G5. unfold find_rule, lookup_path. rewrite Er, Ne.
-  destruct (path_segs p) as [segs|] eqn:Sp; [|discriminate]. intro H.
+  destruct (path_segs p) as [segs|] eqn:Sp; [|discriminate]. rewrite dfs_fast_eq. intro H.
   destruct (pieces_ok f5 ci p segs W L G5 Sp) as [P1 P2].
   apply (dfs_caps_inv _ (fun v => wfenc v /\ lc_ok ci v = true /\ (f5 = true \/ guard_F5 v = false) /\ piece_of p v) segs _ _ P1 P2) in H;
     [exact H|].
@@ -1522,7 +1535,7 @@ Proof.
     exists v. split; [assumption|]. apply (capture_decoding fx NoDecode v Wv); [|assumption].
     unfold lc_ok in Lv. destruct (fx2 fx); [left; reflexivity | right]. simpl in Lv. apply negb_true_iff in Lv. exact Lv.
   - intro Hb. destruct (Hb _ Hin ltac:(first [reflexivity | assumption])) as [h ->]. simpl. eexists. split; [reflexivity|].
-    unfold create_url_fx; simpl. split; [exact Er|]. unfold wire_path; simpl. rewrite Er, Eu. simpl.
+    unfold create_url_q; simpl. split; [exact Er|]. unfold wire_path; simpl. rewrite Er, Eu. simpl.
     destruct (wfenc_unescape p W) as [pa Hpa]. rewrite (unescape_or_empty_some _ _ Hpa).
     apply escaped_path_valid; assumption.
 Qed.
@@ -1559,7 +1572,7 @@ Proof.
   - rewrite Forall_map. eapply Forall_impl; [|exact Pc]. intros [n v] (Wv & Lv & Gv & Pv). simpl in *.
     exists v. split; [assumption | reflexivity].
   - intro Hb. destruct (Hb _ Hin ltac:(first [reflexivity | assumption])) as [h ->]. simpl. eexists. split; [reflexivity|].
-    unfold create_url_fx; simpl. rewrite Eu; simpl. splits; try reflexivity.
+    unfold create_url_q; simpl. rewrite Eu; simpl. splits; try reflexivity.
     unfold wire_path, escaped_path; simpl. destruct (String.eqb (unescape_or_empty p) "*"); [reflexivity|].
     apply escape_no_enc_slash.
 Qed.
@@ -1676,7 +1689,7 @@ Lemma find_rule_pieces_tok fp ft fx rules u c p : fp "/"%char = true -> u_rawpat
   Forall (fun kv => tok_all fp ft (snd kv) = true) (cd_caps c).
 Proof.
   intros Hs Er Ne W T. unfold find_rule, lookup_path. rewrite Er, Ne.
-  destruct (path_segs p) as [segs|] eqn:Sp; [|discriminate]. intro H.
+  destruct (path_segs p) as [segs|] eqn:Sp; [|discriminate]. rewrite dfs_fast_eq. intro H.
   destruct (pieces_tok fp ft p segs Hs W T Sp) as [P1 P2].
   apply (dfs_caps_inv _ (fun v => tok_all fp ft v = true) segs _ _ P1 P2) in H; [exact H|].
   apply Forall_forall. intros x Hx. apply in_cands_of in Hx as (r & t & _ & _ & ->). constructor.
@@ -2013,3 +2026,136 @@ Example F4_envoy_upstream_witness :
   exists u, serve_envoy repaired w_rules_nd false "h" "/files/a%2Fb^" "" = Accepted "nd" false [("rest", "a%2Fb^")] (Some u) /\
             u_rawpath u = "/files/a%2Fb^" /\ wire_path u = "/files/a/b%5E".
 Proof. split; [reflexivity|]. eexists. splits; vm_compute; reflexivity. Qed.
+
+(** * Part H — which route, which captures (position by position), and the answer
+
+    The candidate the lookup returns belongs to a path expression that matches the
+    path AS IT IS SPELLED ([rmatch]), and its captures are the segments at the
+    wildcards' positions ([route_caps]). *)
+
+(** a path expression after it consumed the segments [pre]: what is left of it and
+    what it captured so far *)
+Fixpoint advance (pat : list seg) (pre : list string) : option (list seg * caps) :=
+  match pre with
+  | [] => Some (pat, [])
+  | s :: r =>
+    match pat with
+    | Lit l :: p => if String.eqb l s then advance p r else None
+    | Wild n :: p => if is_empty s then None
+                     else match advance p r with Some (p', cs) => Some (p', (n, s) :: cs) | None => None end
+    | _ => None
+    end
+  end.
+
+Lemma advance_snoc s : forall pre pat,
+  advance pat (pre ++ [s]) =
+  match advance pat pre with
+  | Some (Lit l :: p, cs) => if String.eqb l s then Some (p, cs) else None
+  | Some (Wild n :: p, cs) => if is_empty s then None else Some (p, (cs ++ [(n, s)])%list)
+  | _ => None
+  end.
+Proof.
+  induction pre as [|x pre IH]; intro pat.
+  - cbn [app advance]. destruct pat as [|[l|n|n] p]; try reflexivity.
+    + destruct (String.eqb l s); reflexivity.
+    + destruct (is_empty s); reflexivity.
+  - cbn [app advance]. destruct pat as [|[l|n|n] p]; try reflexivity.
+    + destruct (String.eqb l x); [apply IH | reflexivity].
+    + destruct (is_empty x); [reflexivity|]. rewrite IH.
+      destruct (advance p pre) as [[[|[l'|n'|n'] p'] cs]|]; try reflexivity.
+      * destruct (String.eqb l' s); reflexivity.
+      * destruct (is_empty s); reflexivity.
+Qed.
+
+Lemma advance_done : forall pre pat cs, advance pat pre = Some ([], cs) ->
+  rmatch pat pre = true /\ route_caps pat pre = Some cs.
+Proof.
+  induction pre as [|x pre IH]; intros pat cs H.
+  - simpl in H. inversion H; subst. split; reflexivity.
+  - simpl in H. destruct pat as [|[l|n|n] p]; try discriminate.
+    + destruct (String.eqb l x) eqn:E; [|discriminate]. destruct (IH _ _ H) as [A B].
+      cbn [rmatch route_caps]. rewrite E, A. auto.
+    + destruct (is_empty x) eqn:E; [discriminate|].
+      destruct (advance p pre) as [[p' cs']|] eqn:Ea; [|discriminate]. inversion H; subst.
+      destruct (IH _ _ Ea) as [A B]. cbn [rmatch route_caps]. rewrite E, A, B. auto.
+Qed.
+
+Lemma advance_catch_all n : forall pre pat cs rem, advance pat pre = Some ([CatchAll n], cs) ->
+  rem <> [] -> is_empty (join_with "/" rem) = false ->
+  rmatch pat (pre ++ rem)%list = true /\ route_caps pat (pre ++ rem)%list = Some ((cs ++ [(n, join_with "/" rem)])%list).
+Proof.
+  induction pre as [|x pre IH]; intros pat cs rem H Hr Hj.
+  - simpl in H. inversion H; subst. destruct rem as [|y r]; [congruence|]. simpl app.
+    cbn [rmatch route_caps]. rewrite Hj. auto.
+  - simpl in H. destruct pat as [|[l|m|m] p]; try discriminate.
+    + destruct (String.eqb l x) eqn:E; [|discriminate]. destruct (IH _ _ _ H Hr Hj) as [A B].
+      simpl app. cbn [rmatch route_caps]. rewrite E, A. auto.
+    + destruct (is_empty x) eqn:E; [discriminate|].
+      destruct (advance p pre) as [[p' cs']|] eqn:Ea; [|discriminate]. inversion H; subst.
+      destruct (IH _ _ _ Ea Hr Hj) as [A B]. simpl app. cbn [rmatch route_caps]. rewrite E, A, B. auto.
+Qed.
+
+Lemma in_filter_map {A B} (f : A -> option B) l y : In y (filter_map f l) -> exists x, In x l /\ f x = Some y.
+Proof.
+  induction l as [|x l IH]; simpl; [contradiction|]. destruct (f x) as [z|] eqn:E.
+  - intros [<-|H]; [exists x; auto | destruct (IH H) as (x0 & ? & ?); exists x0; auto].
+  - intro H. destruct (IH H) as (x0 & ? & ?). exists x0; auto.
+Qed.
+
+Definition adv_inv (pre : list string) (x : cand) : Prop :=
+  advance (rt_pat (cd_route x)) pre = Some (cd_pat x, cd_caps x).
+
+Lemma dfs_adv ok : forall rem pre cs c,
+  (forall x, In x cs -> adv_inv pre x) -> dfs ok cs rem = Some c ->
+  rmatch (rt_pat (cd_route c)) (pre ++ rem)%list = true /\
+  route_caps (rt_pat (cd_route c)) (pre ++ rem)%list = Some (cd_caps c).
+Proof.
+  induction rem as [|s r IH]; intros pre cs c Hcs.
+  - simpl. unfold first_ok. intro H. apply find_some in H as [H _]. apply in_filter_map in H as (x & Hx & Ex).
+    unfold at_end in Ex. destruct (cd_pat x) eqn:Ep; [|discriminate]. inversion Ex; subst c.
+    rewrite app_nil_r. apply advance_done. pose proof (Hcs x Hx) as A. unfold adv_inv in A. rewrite Ep in A. exact A.
+  - cbn [dfs].
+    assert (SL : forall y, In y (filter_map (step_lit s) cs) -> adv_inv (pre ++ [s])%list y).
+    { intros y Hy. apply in_filter_map in Hy as (x & Hx & Ex). pose proof (Hcs x Hx) as A. unfold adv_inv in *.
+      unfold step_lit in Ex. destruct (cd_pat x) as [|[l|n|n] p] eqn:Ep; try discriminate.
+      destruct (String.eqb l s) eqn:El; [|discriminate]. inversion Ex; subst y; simpl.
+      rewrite advance_snoc, A, El. reflexivity. }
+    assert (SW : is_empty s = false -> forall y, In y (filter_map (step_wild s) cs) -> adv_inv (pre ++ [s])%list y).
+    { intros Ne y Hy. apply in_filter_map in Hy as (x & Hx & Ex). pose proof (Hcs x Hx) as A. unfold adv_inv in *.
+      unfold step_wild in Ex. destruct (cd_pat x) as [|[l|n|n] p] eqn:Ep; try discriminate.
+      inversion Ex; subst y; simpl. rewrite advance_snoc, A, Ne. reflexivity. }
+    replace (pre ++ s :: r)%list with ((pre ++ [s]) ++ r)%list by (rewrite <- app_assoc; reflexivity).
+    destruct (dfs ok (filter_map (step_lit s) cs) r) eqn:E1.
+    { intro H; inversion H; subst. eapply IH; eassumption. }
+    destruct (is_empty s) eqn:Ne.
+    + destruct (is_empty (join_with "/" (s :: r))) eqn:Nj; [discriminate|].
+      unfold first_ok. intro H. apply find_some in H as [H _]. apply in_filter_map in H as (x & Hx & Ex).
+      unfold step_catch_all in Ex. destruct (cd_pat x) as [|[l|n|n] [|? p]] eqn:Ep; try discriminate.
+      inversion Ex; subst c; simpl. rewrite <- app_assoc. simpl app.
+      apply advance_catch_all; [|discriminate|assumption]. pose proof (Hcs x Hx) as A. unfold adv_inv in A. rewrite Ep in A. exact A.
+    + destruct (dfs ok (filter_map (step_wild s) cs) r) eqn:E2.
+      { intro H; inversion H; subst. eapply IH; [apply SW; reflexivity | eassumption]. }
+      destruct (is_empty (join_with "/" (s :: r))) eqn:Nj; [discriminate|].
+      unfold first_ok. intro H. apply find_some in H as [H _]. apply in_filter_map in H as (x & Hx & Ex).
+      unfold step_catch_all in Ex. destruct (cd_pat x) as [|[l|n|n] [|? p]] eqn:Ep; try discriminate.
+      inversion Ex; subst c; simpl. rewrite <- app_assoc. simpl app.
+      apply advance_catch_all; [|discriminate|assumption]. pose proof (Hcs x Hx) as A. unfold adv_inv in A. rewrite Ep in A. exact A.
+Qed.
+
+(** FindRule returns a rule one of whose path expressions matches the looked-up
+    path as it is spelled; the captures are the segments at its wildcards *)
+Theorem find_rule_route fx rules u c p : u_rawpath u = p -> is_empty p = false ->
+  find_rule fx rules u = Some c ->
+  In (cd_rule c) rules /\ In (cd_route c) (r_routes (cd_rule c)) /\
+  rmatch (rt_pat (cd_route c)) (segs_of p) = true /\
+  route_caps (rt_pat (cd_route c)) (segs_of p) = Some (cd_caps c).
+Proof.
+  intros Er Ne F. pose proof (find_rule_in _ _ _ _ F) as Hin. revert F.
+  unfold find_rule, lookup_path, segs_of. rewrite Er, Ne.
+  destruct (path_segs p) as [segs|] eqn:Sp; [|discriminate]. rewrite dfs_fast_eq. intro H.
+  assert (Hr : In (cd_route c) (r_routes (cd_rule c))).
+  { apply (dfs_rule_inv _ (fun r t => In t (r_routes r)) _ _ _ (cands_of_Forall _ rules (fun r t _ Ht => Ht)) H). }
+  destruct (dfs_adv _ segs [] (cands_of rules) c) as [A B]; [|exact H|].
+  - intros x Hx. apply in_cands_of in Hx as (r & t & _ & _ & ->). reflexivity.
+  - simpl in A, B. auto.
+Qed.
